@@ -12,6 +12,7 @@ import (
 // file is not remembered as loaded.
 func VerifH08bHtpasswd() {
 	verifrt.Terminates()
+	htpasswords = nil // a fresh process (natively several vectors share one)
 	root := verifrt.FSRoot()
 	verifrt.FSPut(root+"/good", []byte("u:{SHA}qUqP5cyxm6YcTAhz05Hph5gvu9M=\n"))
 	verifrt.FSPut(root+"/bad", []byte("line-without-colon\n"))
@@ -25,4 +26,24 @@ func VerifH08bHtpasswd() {
 	verifrt.Assert(err == nil && pm != nil, "valid-file-loads-after-failures")
 	_, err = GetHtpasswdMatcher("bad", "u", root)
 	verifrt.Assert(err != nil, "bad-file-not-cached-as-loaded")
+}
+
+// VerifH08bHtpasswdRepaired: a load that fails on a malformed line (after a valid one) leaves nothing
+// of that file behind: once the file is repaired in place a further load sees exactly the repaired
+// contents -- the user after the formerly bad line is found, a user that was removed is not.
+func VerifH08bHtpasswdRepaired() {
+	verifrt.Terminates()
+	htpasswords = nil // a fresh process (natively several vectors share one)
+	root := verifrt.FSRoot()
+	verifrt.FSPut(root+"/pw", []byte("old:{SHA}qUqP5cyxm6YcTAhz05Hph5gvu9M=\nline-without-colon\nlate:{SHA}qUqP5cyxm6YcTAhz05Hph5gvu9M=\n"))
+	nfail := verifrt.IntRange("failed-attempts", 1, 2)
+	for i := 0; i < nfail; i++ {
+		_, err := GetHtpasswdMatcher("pw", []string{"old", "late"}[verifrt.Choose("user", 2)], root)
+		verifrt.Assert(err != nil, "malformed-file-is-an-error")
+	}
+	verifrt.FSPut(root+"/pw", []byte("new:{SHA}qUqP5cyxm6YcTAhz05Hph5gvu9M=\nlate:{SHA}qUqP5cyxm6YcTAhz05Hph5gvu9M=\n"))
+	pm, err := GetHtpasswdMatcher("pw", "late", root)
+	verifrt.Assert(err == nil && pm != nil, "repaired-file-loads-completely")
+	_, err = GetHtpasswdMatcher("pw", "old", root)
+	verifrt.Assert(err != nil, "nothing-of-the-failed-load-is-kept")
 }
